@@ -97,6 +97,7 @@ type bareOpts struct {
 	ip       net.IP
 	port     int
 	utpLimit int
+	conf     *portalwire.PortalProtocolConfig // nil: a config of its own (portal/node.go hands ONE config object to every sub-protocol)
 }
 
 func newBareNode(o bareOpts) *bareNode {
@@ -121,7 +122,10 @@ func newBareNode(o bareOpts) *bareNode {
 		ln.Set(versEntry(o.versions))
 	}
 	ln.Node() // sign now (LocalNode.Node sleeps under its mutex when re-signing)
-	conf := portalwire.DefaultPortalProtocolConfig()
+	conf := o.conf
+	if conf == nil {
+		conf = portalwire.DefaultPortalProtocolConfig()
+	}
 	conf.RadiusCacheSize = 1 << 20
 	conf.CapabilitiesCacheSize = 1 << 20
 	conf.EphemeralHeaderCountCacheSize = 1 << 20
